@@ -184,7 +184,9 @@ func TestRaceAudit(t *testing.T) {
 		fn   func(uint, []byte) (protocol.Message, error)
 		msgs map[uint]*space.Node
 	}{
-		{"chainsync", func(t uint, b []byte) (protocol.Message, error) { return chainsync.NewMsgFromCbor(protocol.ProtocolModeNodeToNode, t, b) }, map[uint]*space.Node{0: A(U(0)), 3: A(U(3), point(), tip()), 4: A(U(4), A(point(), A(), point())), 5: A(U(5), point(), tip())}},
+		{"chainsync", func(t uint, b []byte) (protocol.Message, error) {
+			return chainsync.NewMsgFromCbor(protocol.ProtocolModeNodeToNode, t, b)
+		}, map[uint]*space.Node{0: A(U(0)), 3: A(U(3), point(), tip()), 4: A(U(4), A(point(), A(), point())), 5: A(U(5), point(), tip())}},
 		{"blockfetch", blockfetch.NewMsgFromCbor, map[uint]*space.Node{0: A(U(0), point(), point()), 2: A(U(2))}},
 		{"handshake", handshake.NewMsgFromCbor, map[uint]*space.Node{0: A(U(0), M(U(13), ntnVD, U(14), ntnVD)), 1: A(U(1), U(13), ntnVD), 2: A(U(2), A(U(0), A(U(13), U(14))))}},
 		{"txsubmission", txsubmission.NewMsgFromCbor, map[uint]*space.Node{0: A(U(0), space.Bool(true), U(2), U(3)), 1: A(U(1), space.AIndef(A(A(U(6), B(hash32)), U(100)))), 6: A(U(6))}},
@@ -206,7 +208,10 @@ func TestRaceAudit(t *testing.T) {
 		d[pcommon.Point]("cbor.Decode(*pcommon.Point)", point().Encode(), A().Encode()),
 		d[pcommon.Tip]("cbor.Decode(*pcommon.Tip)", tip().Encode()),
 		d[chainsync.WrappedHeader]("cbor.Decode(*chainsync.WrappedHeader)", A(U(1), Tag(24, B([]byte{0x82, 0x01, 0x02}))).Encode()),
-		dec{"protocol.NewVersionDataNtN13andUpFromCbor", func(b []byte) (any, error) { v, err := protocol.NewVersionDataNtN13andUpFromCbor(b); return fmt.Sprint(v), err }, [][]byte{ntnVD.Encode()}},
+		dec{"protocol.NewVersionDataNtN13andUpFromCbor", func(b []byte) (any, error) {
+			v, err := protocol.NewVersionDataNtN13andUpFromCbor(b)
+			return fmt.Sprint(v), err
+		}, [][]byte{ntnVD.Encode()}},
 	)
 	// generic cbor + diagnostics
 	rich := A(U(1), space.NInt(-70000), B([]byte{1, 2, 3}), T("text"), M(U(1), A(U(2)), T("k"), Tag(121, space.AIndef(U(1), B([]byte{9})))),
